@@ -40,6 +40,9 @@ type C04Node struct {
 	decoyHidP   *C04Leaf            `valid:"exist"`
 	DecoyT      time.Time           `valid:"required"`
 	DecoyTP     *time.Time          `valid:"exist"`
+	ñDecoy      *C04Leaf            `valid:"required"` // names that start with a non-ASCII lower-case letter are unexported too
+	öDecoyL     []C04Leaf           `valid:"exist"`
+	ωDecoy      C04Leaf             `valid:"exist"`
 	Ints        []int               `valid:"exist"`
 	C04Emb      `valid:"exist"`     // embedded, marked: validated under the path Parent.C04Emb
 	C04DecoyEmb                     // embedded, unmarked: never validated
@@ -137,6 +140,8 @@ func c04Node(rng *rand.Rand, depth int) *C04Node {
 	n.DecoyS = []C04Leaf{{Y: 9}}
 	n.DecoyM = map[string]*C04Leaf{"d": {Y: 9}}
 	n.decoyHidP = &C04Leaf{Y: 9}
+	n.öDecoyL = []C04Leaf{{Y: 9}}
+	n.ωDecoy = C04Leaf{Y: 9}
 	n.DecoyTP = &time.Time{}
 	if rng.Intn(2) == 0 {
 		n.Ints = []int{1, 2}
@@ -227,6 +232,10 @@ func runC04(c *core.Ctx) {
 	M := c.Pick(400, 12000)
 	for i := 0; i < M; i++ {
 		t := gen.RandStruct(rng, to)
+		if i%40 == 7 {
+			t = c04WideType(rng, i) // 65-90 fields: marked sub-objects beyond field index 63
+			res.Count("wide_struct_cases")
+		}
 		v := tunedFill(rng, t, "valid", 0.2)
 		res.Count("structof_cases")
 		c04Case(res, "structof", ptrTo(v).Interface(), i)
@@ -293,4 +302,25 @@ func c04Case(res *core.Result, class string, in interface{}, idx int) {
 	if ok && idx < 2 && len(exps) >= 2 {
 		res.Sample(class, 1, map[string]interface{}{"input": trunc(wit.Value, 500), "library_returned": trunc(out.String(), 600)})
 	}
+}
+
+// c04WideType: a struct with 65-90 fields whose marked sub-objects sit at high field indexes.
+func c04WideType(rng *rand.Rand, id int) reflect.Type {
+	n := 65 + rng.Intn(26)
+	leaf := reflect.TypeOf(C04Leaf{})
+	fields := make([]reflect.StructField, n)
+	for f := range fields {
+		name := fmt.Sprintf("W%d", f)
+		switch {
+		case f >= 60 && rng.Intn(3) == 0:
+			fields[f] = reflect.StructField{Name: name, Type: reflect.PointerTo(leaf), Tag: reflect.StructTag(fmt.Sprintf(`valid:"required|m_w%d_%d"`, id, f))}
+		case f >= 60 && rng.Intn(3) == 0:
+			fields[f] = reflect.StructField{Name: name, Type: reflect.SliceOf(leaf), Tag: `valid:"exist"`}
+		case rng.Intn(4) == 0:
+			fields[f] = reflect.StructField{Name: name, Type: gen.TString, Tag: reflect.StructTag(fmt.Sprintf(`valid:"required|m_w%d_%d"`, id, f))}
+		default:
+			fields[f] = reflect.StructField{Name: name, Type: gen.TInt}
+		}
+	}
+	return reflect.StructOf(fields)
 }
